@@ -1,15 +1,18 @@
-(* C07, transform pass and formatters.  Nothing can fail there BY CONSTRUCTION: `transform_list`
-   (implicit tag, attribute merge, lorem header, xsl, label) returns `list anode`, and
-   `stringify_markup` (html / haml / pug / slim, comments, JSX attribute renaming, context) returns
-   `fstate`; neither returns `res`, neither takes fuel: every list access in them is a pattern match
-   with an explicit empty case that mirrors a guard of the Python code (the correspondence run compares
-   the outcome class of the whole pipeline, formatter included, with the implementation).
-   The two lemmas below only record that fact in a form the composition can cite. *)
+(* C07, transform pass and formatters.
+   Transform pass: implicit tag, attribute merge, lorem header, xsl and label cannot fail BY CONSTRUCTION
+   (`transform_node_pre` returns a plain value); the BEM addon (model/MarkupBem.v) has two explicit raise
+   sites (update_class on a node without attributes: TypeError; cl[0]: IndexError), so `transform_list`
+   returns `res` -- and is PROVED to return Ok for every configuration (bem.enabled included, every
+   separator, every context) and every tree: proofs/BemProofs.v, cited below.
+   Formatters: `stringify_markup` (html / haml / pug / slim, comments, JSX attribute renaming, context)
+   returns `fstate`, no `res`, no fuel: every list access is a pattern match with an explicit empty case that
+   mirrors a guard of the Python code (the correspondence run compares the whole pipeline, formatter
+   included, with the implementation). *)
 From Emmet Require Import lib.Base model.MarkupConvert model.MarkupResolve model.OutStream model.FormatHtml
-     model.FormatIndent model.MarkupExpand.
+     model.FormatIndent model.MarkupExpand proofs.BemProofs.
 
-Lemma transform_total : forall cfg l, exists r, transform_list cfg l = r.
-Proof. intros. eexists. reflexivity. Qed.
+Lemma transform_total : forall cfg l, exists r, transform_list cfg l = Ok r.
+Proof. exact transform_list_ok. Qed.
 
 Lemma format_total : forall syntax o tree, exists st, stringify_markup syntax o tree = st.
 Proof. intros. eexists. reflexivity. Qed.
